@@ -169,6 +169,38 @@ def _freeze(x):
     return x
 
 
+class AbsInt(AbstractValue):
+    def __init__(self, tag='int', nonneg=False):
+        self.tag = tag
+        self.prov = ('int', tag)
+
+    def __repr__(self):
+        return 'AbsInt(%s)' % (self.tag,)
+
+    def abs_compare(self, interp, op, other, reflected):
+        if other is None:
+            return op is ast.NotEq
+        return Cond(('intcmp', op.__name__, self.prov, _freeze(other), reflected))
+
+    def abs_binop(self, interp, op, other, reflected):
+        if isinstance(other, (int, AbsInt, Unknown)) and not isinstance(other, bool):
+            return AbsInt(('op', op.__name__, self.tag, _freeze(other), reflected))
+        if op is ast.Mult and isinstance(other, str):
+            return AbsStr(prov=('rep', other, self.prov)) if not set(other) - set(' #=-') else Unknown('rep')
+        return Unknown('int-op')
+
+    def abs_unary(self, interp, op):
+        return AbsInt(('neg', self.tag))
+
+    def abs_truth(self, interp):
+        return interp.oracle.decide(('cond', ('nonzero', self.prov)), ('nonzero', self.prov))
+
+    def abs_is(self, interp, other):
+        if other is None:
+            return False
+        return self is other
+
+
 class AbsSeq(AbstractValue):
     """A sequence of unknown length whose elements are produced by `elem(i)`."""
 
@@ -255,7 +287,7 @@ class AbsMatch(AbstractValue):
         if name == 'groups':
             return tuple(self.group(i) for i in range(1, self.ngroups + 1))
         if name in ('start', 'end'):
-            return Unknown('%s(%s)' % (name, args))
+            return AbsInt(('matchpos', name, tuple(args), self.key))
         return Unknown('match.%s' % name)
 
     def abs_getattr(self, interp, name):
